@@ -4,8 +4,7 @@
 //   A = HArray<String<char>, String<char>>   (owning strings as values)
 //   B = HArray<String<char>, Value<char>>    (nested values: object holding a number and an array)
 //   L = HList<String<char>>                  (no values; printed as 0)
-// Operation syntax: see lean/Qentem/Driver/HashTable.lean.  Extra op, harness only:
-//   W  self-merge  h += h   (the model cannot alias operands)
+// Operation syntax: see lean/Qentem/Driver/HashTable.lean (W = self-merge h += h, both overloads).
 // Record = out#size cap heads#items, items = key/Hash/Next/value-id joined by ';'.
 // Bucket heads are read at Storage() - Capacity() (HashTable.hpp layout), no private access.
 #include "common.hpp"
@@ -430,7 +429,8 @@ struct Runner {
             return "u";
         }
         if (c == "W" && f.size() == 1) {
-            h += h;
+            if (rot++ % 2) h += h;
+            else h += Memory::Move(h);
             return "u";
         }
         return "";
